@@ -59,14 +59,19 @@ def fill(P):
     P("C09", "other", "contract-based deductive verification of the round getters (get_elected/get_eliminated/get_remaining/get_ranking/get_profile) and per-rule frame obligations + bounded query-history check on finished elections of every rule",
       "Getter results equal the concatenation specs over the recorded rounds, IndexError iff out of range, no store to self; every rule's _run_step stores nothing unless store_states (effect scan; PluralityVeto refuted = known finding); 12-query histories bounded.",
       "Election._run_step as a function of (profile, state) is assumed for the replay getter; get_status_df (pandas) bounded only.", "DESIGN.md 4-C09")
-    P("C10", "other", "contract-based deductive verification of the tie-straddle kernel (elect_cands_from_set_ranking records a tiebreak iff a set straddles the last seat) + bounded multi-seed audit of recorded tiebreaks",
-      "The kernel's contract is proved; whole elections are audited under 4 seeds (bounded).", "tiebreak_set's own body is out of the verifier's reach (sorted/dict-of-lists): bounded only.", "DESIGN.md 4-C10")
+    P("C10", "other", "contract-based deductive verification of the tie-straddle kernel (elect_cands_from_set_ranking records a tiebreak iff a set straddles the last seat), tiebreak_set (strict order of exactly the tied set, random fallback whenever the tally leaves any tie) and the single-shot / STV rounds + bounded multi-seed audit of recorded tiebreaks",
+      "Kernel, tiebreak_set and the rounds of Plurality/Borda/rating/STV/RandomDictator are proved against their callees' contracts; whole elections are audited under 4 seeds (bounded).", "score_dict_to_ranking / tiebroken_ranking (sorted, dict of lists, slice stores) are assumed callee contracts; bounded only.", "DESIGN.md 4-C10, 8.2")
     P("C13", "other", "contract-based deductive verification of the alias constructors (delegation with the documented arguments, class defines nothing else) + bounded differential check against separately built components",
       "IRV/SNTV/SequentialRCV constructor delegation and class-frame obligations are discharged; TopTwo/Alaska composition is a bounded differential check.", "", "DESIGN.md 4-C13")
     P("C14", "exploration", "bounded structural audit of every generator on a parameter grid", B, "apportionment package assumed to be Huntington-Hill (A-APP).", "DESIGN.md 4-C14")
-    P("C15", "exploration", "bounded entry-by-entry comparison of the probability tables with the defining formulas in exact rationals", B, "floats compared up to 1e-9 relative.", "DESIGN.md 4-C15")
+    P("C15", "other", "contract-based deductive verification of PreferenceInterval (__init__, _normalize, _remove_zero_support_cands; floats read as reals with one rounding per operation) + bounded entry-by-entry comparison of the probability tables with the defining formulas in exact rationals",
+      "The interval construction is proved for all support dicts: candidates = given names, zero_cands = support 0, stored interval = positive supports divided by their sum, ZeroDivisionError iff none is positive; "
+      "combine_preference_intervals and the Bradley-Terry tables (itertools / numpy) are bounded only.", "floats compared up to 1e-9 relative in the bounded part; A-FLOAT in the proof part.", "DESIGN.md 4-C15, 8.2")
     P("C16", "exploration", "bounded call-site audit of the RNG draws, exact Metropolis acceptance probes, scripted cohesion sampler, spatial rankings recomputed",
       B + "; mixing of finite MCMC runs and Dirichlet-driven constructors are not decidable (not covered)", "numpy/random primitives' laws assumed (A-LIB).", "DESIGN.md 4-C16")
-    P("C17", "exploration", "bounded exact-law execution (choice-tree exploration of the real step with scripted RNG primitives)", B, "primitives' laws assumed (A-LIB).", "DESIGN.md 4-C17")
+    P("C17", "other", "contract-based deductive verification of RandomDictator._run_step and tiebreak_set (call-site contract of random.choices / random.sample) + bounded exact-law execution (choice-tree exploration of the real step with scripted RNG primitives)",
+      "Proved for all profiles: the dictator ballot is drawn by one random.choices call over the profile's ballots in order with exactly their weights (k=1), the winner is one candidate of the drawn ballot's first position (tie broken by a recorded random strict order of exactly that position), "
+      "the returned profile is the input without the winner; tiebreak_set returns a strict order of exactly the tied set. The resulting probabilities (weight/total, 1/k!) follow from the primitives' documented laws (A-LIB); BoostedRandomDictator (numpy) and the closed forms are bounded only.",
+      "primitives' laws assumed (A-LIB); tiebroken_ranking / score_dict_to_ranking assumed callee contracts.", "DESIGN.md 4-C17, 8.2")
     P("C18", "exploration", "bounded check of the loaders on generated files (no contract within reach: the property is about pandas/csv behaviour)", B, "", "DESIGN.md 4-C18")
     P("C19", "exploration", "bounded comparison of lp_dist with the p-norm definition and the metric axioms on sampled triples; ballot graph vs definition for n<=5", B, "Lean lemma L19 not yet wired in.", "DESIGN.md 4-C19")
